@@ -6,6 +6,7 @@ package zz_verif
 // style / reverse / receiver symbolic; expectations are computed from go/types facts.
 
 import (
+	bmodel "github.com/reedom/convergen/pkg/builder/model"
 	"go/types"
 	"strconv"
 
@@ -69,6 +70,14 @@ func C08CreateFunction() {
 	}
 	wantReject := (reverse && extra > 0) || (recv && srcImported)
 	vrt.Assert("rejected-iff-documented-illegal", (err != nil) == wantReject)
+	// an illegal method fails the run whatever comes after it: it is never left out while the
+	// functions of the other methods are delivered (one function per method, or none at all)
+	rest := methods[len(methods)-1]
+	fns, errAll := p.CreateBuilder().CreateFunctions([]*bmodel.MethodEntry{m, rest})
+	vrt.Assert("an-illegal-method-fails-the-run-whatever-follows", (errAll != nil) == wantReject)
+	if errAll == nil {
+		vrt.Assert("one-function-per-method", len(fns) == 2 && fns[0].Name == m.Method.Name() && fns[1].Name == rest.Method.Name())
+	}
 	if err != nil {
 		vrt.Reach("rejected")
 		return
